@@ -195,6 +195,9 @@ type c13Typed struct {
 	write    func(cfg c13Config) ([]byte, error)
 	readAll  func(f *parquet.File, from int64) (any, error) // GenericReader[T], optional SeekToRow
 	readFunc func(data []byte) (any, error)                 // parquet.Read[T]
+	readOld  func(f *parquet.File, from int64) (any, error) // deprecated Reader: Read(&T), optional SeekToRow
+	readRG   func(f *parquet.File, g int) (any, error)      // NewGenericRowGroupReader[T]
+	rewrite  func(f *parquet.File, g int) ([]byte, error)   // GenericWriter[T].WriteRowGroup(row group g) into a new file
 	drop     func(rows any, k int64) any
 }
 
@@ -253,13 +256,13 @@ func c13TypedOf[T any](gen func(cfg c13Config, r *rand.Rand) []T) c13Typed {
 			buf := make([]T, 37)
 			for spins := 0; spins < 1<<16; spins++ {
 				n, err := r.Read(buf)
+				if err != nil && err != io.EOF {
+					return out, err
+				}
 				out = append(out, buf[:n]...)
 				buf = make([]T, 37)
 				if err == io.EOF {
 					return out, nil
-				}
-				if err != nil {
-					return out, err
 				}
 			}
 			return out, errors.New("c13: reader does not terminate")
@@ -267,6 +270,56 @@ func c13TypedOf[T any](gen func(cfg c13Config, r *rand.Rand) []T) c13Typed {
 		readFunc: func(data []byte) (any, error) {
 			rows, err := parquet.Read[T](bytes.NewReader(data), int64(len(data)))
 			return rows, err
+		},
+		readOld: func(f *parquet.File, from int64) (any, error) {
+			r := parquet.NewReader(f)
+			defer r.Close()
+			if from >= 0 {
+				if err := r.SeekToRow(from); err != nil {
+					return nil, err
+				}
+			}
+			var out []T
+			for spins := 0; spins < 1<<20; spins++ {
+				var row T
+				err := r.Read(&row)
+				if err == io.EOF {
+					return out, nil
+				}
+				if err != nil {
+					return out, err
+				}
+				out = append(out, row)
+			}
+			return out, errors.New("c13: reader does not terminate")
+		},
+		readRG: func(f *parquet.File, g int) (any, error) {
+			r := parquet.NewGenericRowGroupReader[T](f.RowGroups()[g])
+			defer r.Close()
+			var out []T
+			for spins := 0; spins < 1<<16; spins++ {
+				buf := make([]T, 19)
+				n, err := r.Read(buf)
+				if err != nil && err != io.EOF {
+					return out, err
+				}
+				out = append(out, buf[:n]...)
+				if err == io.EOF {
+					return out, nil
+				}
+			}
+			return out, errors.New("c13: reader does not terminate")
+		},
+		rewrite: func(f *parquet.File, g int) ([]byte, error) {
+			buf := new(bytes.Buffer)
+			w := parquet.NewGenericWriter[T](buf)
+			if _, err := w.WriteRowGroup(f.RowGroups()[g]); err != nil {
+				return nil, err
+			}
+			if err := w.Close(); err != nil {
+				return nil, err
+			}
+			return buf.Bytes(), nil
 		},
 		drop: func(rows any, k int64) any {
 			rs := rows.([]T)
@@ -459,14 +512,14 @@ func c13ReadRows(rows parquet.Rows, from int64) (any, error) {
 	buf := make([]parquet.Row, 29)
 	for spins := 0; spins < 1<<16; spins++ {
 		n, err := rows.ReadRows(buf)
+		if err != nil && err != io.EOF {
+			return out, err // the rows of the calls that succeeded (the failing call's own rows are not judged)
+		}
 		for i := 0; i < n; i++ {
 			out = append(out, buf[i].Clone())
 		}
 		if err == io.EOF {
 			return out, nil
-		}
-		if err != nil {
-			return out, err
 		}
 	}
 	return out, errors.New("c13: reader does not terminate")
@@ -549,6 +602,41 @@ func c13Same(a, b any) bool {
 		return true
 	}
 	return reflect.DeepEqual(a, b)
+}
+
+// c13IsPrefix: what the successful reads delivered before an error (got) is a prefix of the pristine
+// result (want). Results that are not row / value / typed-row slices (or nil) are not judged.
+func c13IsPrefix(got, want any) bool {
+	if got == nil {
+		return true
+	}
+	switch g := got.(type) {
+	case []parquet.Row:
+		w, ok := want.([]parquet.Row)
+		return !ok || (len(g) <= len(w) && c13Same(g, w[:len(g)]))
+	case []string:
+		w, ok := want.([]string)
+		if !ok {
+			return true
+		}
+		if len(g) > len(w) {
+			return false
+		}
+		for i := range g {
+			if g[i] != w[i] {
+				return false
+			}
+		}
+		return true
+	}
+	gv, wv := reflect.ValueOf(got), reflect.ValueOf(want)
+	if gv.Kind() != reflect.Slice || wv.Kind() != reflect.Slice || gv.Type() != wv.Type() {
+		return true
+	}
+	if gv.Len() > wv.Len() {
+		return false
+	}
+	return gv.Len() == 0 || reflect.DeepEqual(gv.Interface(), wv.Slice(0, gv.Len()).Interface())
 }
 
 // ---------------------------------------------------------------- retries on the same reader
@@ -894,6 +982,11 @@ func (e *c13Env) accesses(p c13Page, r *rand.Rand) []c13Access {
 			}
 		}
 	}
+	var seekRows []int64
+	for _, t := range ks {
+		seekRows = append(seekRows, t.k)
+	}
+	e.entryAccesses(p, seekRows, add)
 	seen := map[int64]bool{}
 	for _, t := range ks {
 		if seen[t.k] {
@@ -1028,6 +1121,36 @@ func (e *c13Env) accesses(p c13Page, r *rand.Rand) []c13Access {
 	return out
 }
 
+// concatScripts: one script per row group for the column of p, as the mirror's c13.concat takes them:
+// 'p' per data page, 'x' where the loader rejects (the faulted page when its header carries a CRC; a
+// faulted dictionary page fails the first read of its chunk)
+func (e *c13Env) concatScripts(p c13Page) string {
+	var parts []string
+	for g := range e.rgRows {
+		var b strings.Builder
+		for _, q := range e.pages {
+			if q.RG != g || q.Col != p.Col {
+				continue
+			}
+			bad := g == p.RG && q.Idx == p.Idx && p.CRC != 0
+			switch {
+			case bad:
+				b.WriteByte('x')
+			case q.Kind != "dict":
+				b.WriteByte('p')
+			}
+			if bad {
+				break
+			}
+		}
+		if b.Len() == 0 {
+			b.WriteByte('-')
+		}
+		parts = append(parts, b.String())
+	}
+	return strings.Join(parts, "/")
+}
+
 // pristine memoises a read of the unaltered file
 func (e *c13Env) pristine(key string, f func() (any, error)) (any, error) {
 	if v, ok := e.base.Load("p/" + key); ok {
@@ -1044,7 +1167,7 @@ func (e *c13Env) pristine(key string, f func() (any, error)) (any, error) {
 // baseline: the same access on the pristine file (memoised)
 func (e *c13Env) baseline(a c13Access, p c13Page) (any, error) {
 	key := fmt.Sprintf("%s/%d/%d/%d", a.Path, p.RG, p.Col, a.K)
-	if !strings.Contains(a.Path, "pages-") && a.Path != "read-dictionary" {
+	if !strings.Contains(a.Path, "pages") && !strings.HasPrefix(a.Path, "value-reader") && a.Path != "print-chunk" && a.Path != "read-dictionary" {
 		key = fmt.Sprintf("%s/%d/-/%d", a.Path, p.RG, a.K)
 	}
 	if v, ok := e.base.Load(key); ok {
@@ -1082,6 +1205,8 @@ func c13Key(p c13Page, a c13Access, class string) string {
 	switch {
 	case p.CRC == 0:
 		return "crc-zero-omitted" + sfx
+	case c13IsEntryPath(a.Path):
+		// a layer above FilePages: named by the entry point whatever the page kind's own history
 	case p.Kind == "dict" && a.Path == "read-dictionary":
 		return "dict-page-crc-unverified-readdictionary" + sfx
 	case p.Kind == "dict" && a.K >= 0:
@@ -1095,6 +1220,8 @@ func c13Key(p c13Page, a c13Access, class string) string {
 		what = "panic"
 	case "other-error":
 		what = "wrong-error"
+	case "wrong-values-before-error":
+		what = class
 	}
 	return what + "-" + kind + "-" + a.Path
 }
@@ -1117,7 +1244,7 @@ func c13Faults(p c13Page, tier string, r *rand.Rand) []c13Fault {
 	thorough := tier == "thorough"
 	// single bits
 	pos := map[int]bool{}
-	if thorough && p.BodyLen <= 48 {
+	if thorough && p.BodyLen <= 32 {
 		for i := 0; i < nbits; i++ {
 			pos[i] = true
 		}
@@ -1162,6 +1289,9 @@ func c13Faults(p c13Page, tier string, r *rand.Rand) []c13Fault {
 			continue
 		}
 		mk(r.Intn(nbits-w+1), w)
+		if thorough && w != 2 && w != 8 && w != 9 && w != 17 && w != 31 && w != 32 {
+			continue // thorough: every width once; the boundary placements stay with the six widths of quick
+		}
 		switch r.Intn(3) {
 		case 0:
 			mk(0, w)
@@ -1353,8 +1483,9 @@ func c13RunJob(job c13Job, col *c13Collector) {
 	}
 	// work list
 	type item struct {
-		p c13Page
-		f c13Fault
+		p     c13Page
+		f     c13Fault
+		first bool // first enumerated fault of its page
 	}
 	var items []item
 	r := rand.New(rand.NewSource(cfg.Seed ^ 0x5eed))
@@ -1362,7 +1493,7 @@ func c13RunJob(job c13Job, col *c13Collector) {
 		for _, ft := range job.Faults {
 			for _, p := range env.pages {
 				if p.RG == ft.RG && p.Col == ft.Col && p.Idx == ft.Page {
-					items = append(items, item{p, ft})
+					items = append(items, item{p, ft, true})
 				}
 			}
 		}
@@ -1372,8 +1503,8 @@ func c13RunJob(job c13Job, col *c13Collector) {
 			if strings.HasPrefix(cfg.Schema, "crczero") {
 				tier = "thorough" // every bit of these small pages
 			}
-			for _, ft := range c13Faults(p, tier, r) {
-				items = append(items, item{p, ft})
+			for k, ft := range c13Faults(p, tier, r) {
+				items = append(items, item{p, ft, k == 0})
 			}
 		}
 	}
@@ -1382,10 +1513,11 @@ func c13RunJob(job c13Job, col *c13Collector) {
 		threads = 1
 	}
 	type l2req struct {
-		req  string
-		want bool // the real read failed with the loader's checksum mismatch
-		info map[string]any
-		path string
+		req    string
+		want   bool   // the real read failed with the loader's checksum mismatch
+		concat string // non-empty: expected answer of c13.concat (pages delivered, error class)
+		info   map[string]any
+		path   string
 	}
 	var l2mu sync.Mutex
 	var l2 []l2req
@@ -1424,13 +1556,40 @@ func c13RunJob(job c13Job, col *c13Collector) {
 					col.hist("flips.region", "values")
 				}
 				modelSeen := map[string]bool{}
-				for _, a := range env.accesses(p, rr) {
+				accs := env.accesses(p, rr)
+				firstSeek := int64(-1)
+				for _, a := range accs {
+					if a.K >= 0 {
+						firstSeek = a.K
+						break
+					}
+				}
+				for _, a := range accs {
 					if len(ft.Paths) > 0 && !c13Contains(ft.Paths, a.Path) {
 						continue
 					}
 					async := strings.HasPrefix(a.Path, "async")
 					if async && job.NoAsync {
 						continue
+					}
+					// The position of the fault matters to the loader and, where the loader lets it through, to the
+					// decoder — not to the layers above. Every fault runs through the core paths (sequential and
+					// first-seek-target reads of pages and rows, ReadDictionary); the other paths take the first
+					// fault of each page and a deterministic share of the rest.
+					if len(ft.Paths) == 0 && !it.first && !c13CorePath(a, firstSeek) {
+						share := 1 // quick: every fault through the classical paths
+						if c13IsEntryPath(a.Path) {
+							share = 3
+						}
+						if job.Tier == "thorough" {
+							share = 6
+							if c13IsEntryPath(a.Path) {
+								share = 12
+							}
+						}
+						if (i+int(a.K)+len(a.Path))%share != 0 {
+							continue
+						}
 					}
 					rec.Paths = append(rec.Paths, fmt.Sprintf("%s@%d", a.Path, a.K))
 					if job.Trace || async {
@@ -1453,6 +1612,10 @@ func c13RunJob(job c13Job, col *c13Collector) {
 						oc = c13Outcome{"panic", pn, false}
 					case err != nil:
 						oc = c13ErrOutcome(err)
+						if oc.Class == "detected" && !c13IsPrefix(got, want) {
+							// reads that SUCCEEDED before the corruption was reported delivered other values
+							oc = c13Outcome{"wrong-values-before-error", oc.Err, oc.CRC}
+						}
 					case c13Same(got, want):
 						oc = c13Outcome{Class: "silent-same"}
 					default:
@@ -1481,10 +1644,35 @@ func c13RunJob(job c13Job, col *c13Collector) {
 							what += " panicked: " + oc.Err
 						case "hang":
 							what += " does not terminate"
+						case "wrong-values-before-error":
+							what += " reported the corruption, but the reads that succeeded before it returned values that are not the pristine ones: " + oc.Err
 						default:
 							what += " failed with an error that is not ErrCorrupted: " + oc.Err
 						}
 						fail("L1", c13Key(p, a, oc.Class), what, detail())
+					}
+					// L2: the concatenating readers (columnPages over the row groups of the file, multiPages) vs
+					// PageReaders.drain on the scripts of the row groups: how many pages were delivered before the
+					// read ended, and how it ended
+					if d != nil && (a.Path == "column-pages-seq" || a.Path == "multi-pages-seq") && oc.Class != "panic" {
+						delivered := 0
+						if vs, ok := got.([]string); ok {
+							for _, v := range vs {
+								if strings.HasPrefix(v, "|rows=") {
+									delivered++
+								}
+							}
+						}
+						ends := "none"
+						switch {
+						case oc.Class == "detected":
+							ends = "corrupted"
+						case err != nil:
+							ends = "other"
+						}
+						l2mu.Lock()
+						l2 = append(l2, l2req{req: "c13.concat " + env.concatScripts(p), concat: fmt.Sprintf("ok pages=%d err=%s", delivered, ends), info: detail(), path: a.Path})
+						l2mu.Unlock()
 					}
 					// L2: the mirror's loader on the same header and altered body
 					if d != nil && a.Model != "" {
@@ -1492,7 +1680,7 @@ func c13RunJob(job c13Job, col *c13Collector) {
 						if !modelSeen[a.Model+fmt.Sprint(oc.CRC)] {
 							modelSeen[a.Model+fmt.Sprint(oc.CRC)] = true
 							kind := map[string]string{"dict": "dict", "v1": "v1", "v2": "v2"}[p.Kind]
-							l2 = append(l2, l2req{fmt.Sprintf("c13.load %s %s %d %08x %s", a.Model, kind, p.BodyLen, p.CRC, core.Hex(body)), oc.CRC, detail(), a.Model})
+							l2 = append(l2, l2req{req: fmt.Sprintf("c13.load %s %s %d %08x %s", a.Model, kind, p.BodyLen, p.CRC, core.Hex(body)), want: oc.CRC, info: detail(), path: a.Model})
 						}
 						l2mu.Unlock()
 					}
@@ -1523,6 +1711,15 @@ func c13RunJob(job c13Job, col *c13Collector) {
 			fail("L2", "driver-error", err.Error(), nil)
 		}
 		for i, a := range ans {
+			if l2[i].concat != "" {
+				col.hist("flips.concat/"+l2[i].path, strings.TrimPrefix(a[strings.LastIndexByte(a, ' ')+1:], "err="))
+				if a != l2[i].concat {
+					info := l2[i].info
+					info["model"], info["code"], info["request"] = a, l2[i].concat, l2[i].req
+					fail("L2", "concat-reader-mismatch-"+l2[i].path, fmt.Sprintf("reading the whole column: code delivered %q, mirror PageReaders.drain %q", l2[i].concat, a), info)
+				}
+				continue
+			}
 			col.hist("flips.model/"+l2[i].path, strings.SplitN(a, " ", 3)[0]+" "+func() string {
 				if strings.HasPrefix(a, "err") {
 					return strings.TrimPrefix(a, "err ")
@@ -1546,6 +1743,17 @@ func c13RunJob(job c13Job, col *c13Collector) {
 }
 
 func c13SampleIndex(n int) int { return n / 2 }
+
+// c13CorePath: the paths every enumerated fault goes through
+func c13CorePath(a c13Access, firstSeek int64) bool {
+	switch a.Path {
+	case "rows-seq", "pages-seq", "read-dictionary":
+		return true
+	case "rows-seek", "pages-seek":
+		return a.K == firstSeek
+	}
+	return false
+}
 
 func c13Contains(xs []string, x string) bool {
 	for _, y := range xs {
